@@ -978,6 +978,11 @@ func (d *Decoder) typeInfo() (highThreeBits, lowFiveBits byte, additional []byte
 	case eightBytesAdditional:
 		additional = make([]byte, 8)
 	default:
+		// 28..30 are reserved and 31 marks an indefinite length (or the
+		// break code), neither of which is supported
+		if lowFiveBits > eightBytesAdditional {
+			return 0, 0, nil, fmt.Errorf("unsupported additional info: %d", lowFiveBits)
+		}
 		return highThreeBits, lowFiveBits, nil, nil
 	}
 
